@@ -265,6 +265,10 @@ func (r *Re) pattern() []byte {
 	case "alt":
 		return append(append(append([]byte("(?:"), r.A.pattern()...), append([]byte("|"), r.C.pattern()...)...), ')')
 	case "star":
+		// a starred atom is written the way people write it (".*", "a*", "[a-c]*"), not as a group
+		if r.A.Kind == "lit" || r.A.Kind == "any" || r.A.Kind == "class" {
+			return append(r.A.pattern(), '*')
+		}
 		return append(append([]byte("(?:"), r.A.pattern()...), []byte(")*")...)
 	}
 	panic("re kind")
